@@ -16,8 +16,24 @@ make the emitted scale-free (n, ss, X, H) the expectation at every S; here g = M
 R = sum g h^T are formed in exact integer arithmetic for the instance's S (R = UB.X/64 re-checked there), and a seeded
 share of the main run's cases is replayed at a scale drawn from the same family.  The matrix comparison is relative
 to the largest element of the expected matrix (no absolute floor: cells of 1e-30 and 1e+30 are judged alike).
+
+Non-finite values: a third run (ScoreRefine_nq/_nt.cfg) enumerates peak lists whose entries may be peaks with a NaN /
++inf / -inf g-vector component (all NaN, +inf and -inf together in the thorough tier) and matrices with one NaN / +-inf
+element.  Such a peak is within no tolerance: the specification's law SubList makes counts, squared errors and normal
+equations those of the list without these peaks, for every route (score, score_and_refine, refine_assigned with the
+non-finite peaks under another label - and under the label: count only -, calc_drlv2, the three Python refinements),
+also tiled, at other scales and in the OpenMP environments; "unchanged" is judged bit for bit; a returned mean or
+matrix element that is not a number never passes a comparison.
+
+Re-entrancy: ScoreRefineCalls.tla (threads x kernels, steps Enter / Add / Return interleaved, law Isolation; its
+_neg.cfg shows that one shared accumulator violates the law) emits every plan thread -> kernel (4 threads; free or
+sharing one core).  harness/c06_child.py threads runs each plan from 4 Python threads on seeded regular cases tiled
+to >= 6e4 peaks (own UBI - one at a scale of the family -, own g-vectors - one list with non-finite peaks -, own
+labels), all threads starting each round together; every call must return the expectation of ITS list (exact
+model values) and, bit for bit, what the same call returned alone.  Which kernels release the GIL (`threadsafe` in
+src/_cImageD11.pyf) is recorded in the evidence.
 """
-import os, sys, json, io, contextlib, time
+import os, sys, json, io, contextlib, time, warnings, threading
 from fractions import Fraction as F
 import numpy as np
 import common
@@ -193,6 +209,18 @@ def scaled_case(case, hs):
     return out
 
 
+def labraw(case, i):
+    """the specification's RawLabelled for position i (0-based) of the patterns that do not depend on the selection"""
+    lab = case["lab"]
+    if lab == "all":
+        return True
+    if lab == "odd":
+        return i % 2 == 0
+    if lab == "none":
+        return False
+    raise common.MachineryError("label pattern %r with non-finite peaks is not bound" % (lab,))
+
+
 def sum_outer(cell, pk, key):
     """the property's definition, literally: R = sum g h^T over the peaks flagged `key`, exactly, as
     (integer matrix, emax)"""
@@ -212,6 +240,8 @@ def same_selection(eu, cell, pk, tol64):
     s = F(2) ** (-cell.emax)
     t2 = F(tol64 * tol64, 4096)
     for p in pk:
+        if p.get("bad"):
+            continue         # a peak that is not a number is selected by no matrix
         hk = [sum(eu[i][k] * p["gnum"][k] for k in range(3)) * s for i in range(3)]
         ih = [int(np.floor(x + F(1, 2))) for x in hk]
         e2 = sum((hk[i] - ih[i]) ** 2 for i in range(3))
@@ -224,9 +254,50 @@ def same_selection(eu, cell, pk, tol64):
     return True
 
 
+NONNUM = {"nan": float("nan"), "pinf": float("inf"), "ninf": float("-inf")}
+
+
+def build_gv(cell, pk):
+    """the g-vectors of the list, one row per peak: exact dyadics; a peak of a non-finite kind (specification: KINDS) has
+    the named component(s) of its base peak's g-vector replaced by NaN / +inf / -inf.  Sets p["gnum"]."""
+    rows = []
+    for p in pk:
+        p["gnum"] = cell.gnum([64 * int(p["h"][i]) + int(p["d"][i]) for i in range(3)])
+        row = [cell.tofloat(v) for v in p["gnum"]]
+        kind = p.get("bad") or ""
+        if kind:
+            c = int(p["comp"]) - 1
+            if kind == "nanall":
+                row = [NONNUM["nan"]] * 3
+            elif kind == "mix":
+                row[c], row[(c + 1) % 3] = NONNUM["pinf"], NONNUM["ninf"]
+            elif kind in NONNUM:
+                row[c] = NONNUM[kind]
+            else:
+                raise common.MachineryError("unknown non-finite kind %r" % (kind,))
+        rows.append(row)
+    return np.array(rows, float).reshape(len(pk), 3)
+
+
+def same_bits(a, b):
+    """unchanged means bit for bit (a NaN element handed in must come back as it was)"""
+    return np.asarray(a, float).tobytes() == np.asarray(b, float).tobytes()
+
+
+def off(value, expected, tol):
+    """True unless |value - expected| <= tol; a value that is not a number is off"""
+    return not (abs(value - expected) <= tol)
+
+
 def judge(case, rt, reps=1, perturb=None, S=None):
     """returns list of problems for one emitted case, peak list tiled `reps` times, at the case's scale S (or at the
     given one: the expectations n, ss, X, H do not depend on it)"""
+    with np.errstate(all="ignore"), warnings.catch_warnings():
+        warnings.simplefilter("ignore")
+        return _judge(case, rt, reps, perturb, S)
+
+
+def _judge(case, rt, reps, perturb, S):
     c = rt.c
     cell = Cell(case, S)
     ubi = cell.ubi
@@ -237,10 +308,15 @@ def judge(case, rt, reps=1, perturb=None, S=None):
     n_exp = case["n"] * reps
     if npk == 0:
         return probs             # f2py wrappers reject zero-length peak lists (the empty selection is npk>0, n=0)
-    for p in pk:
-        p["gnum"] = cell.gnum([64 * int(p["h"][i]) + int(p["d"][i]) for i in range(3)])
-    gv1 = np.array([[cell.tofloat(v) for v in p["gnum"]] for p in pk], float)
+    gv1 = build_gv(cell, pk)
     gv = np.ascontiguousarray(np.tile(gv1, (reps, 1)))
+    fin = np.array([not p.get("bad") for p in pk], bool)
+    ubkind = case.get("ub", "none")
+    if ubkind != "none":           # one element of UBI is not a number: no peak is within the tolerance
+        if case["n"] != 0 or not fin.all():
+            raise common.MachineryError("non-finite UBI case with selected / non-finite peaks: %s" % (case,))
+        ubi = ubi.copy()
+        ubi[int(case["ubat"][0]) - 1, int(case["ubat"][1]) - 1] = NONNUM[ubkind]
     # --- the python formulas against TLC's integers (g = G512/512, R = sum G512 h^T at S = 0) and the law R = UB.X/64
     R = sum_outer(cell, pk, "sel")
     Rl = sum_outer(cell, pk, "lab")
@@ -254,9 +330,9 @@ def judge(case, rt, reps=1, perturb=None, S=None):
         if [[v * sh for v in r] for r in R[0]] != case["R"] or [[v * sh for v in r] for r in Rl[0]] != case["Rl"]:
             raise common.MachineryError("specification's R differs from UB.X/64: %s" % (case,))
     # --- the construction itself: UBI.g = h + d/64 exactly in binary64
-    hk = gv1 @ ubi.T
+    hk = gv1 @ cell.ubi.T
     want = np.array([p["h"] for p in pk], float) + np.array([p["d"] for p in pk], float) / 64.0
-    if not np.array_equal(hk, want):
+    if not np.array_equal(hk[fin], want[fin]) or np.isfinite(hk[~fin]).all(axis=1).any():
         raise common.MachineryError("dyadic construction not exact at S=%s: %s vs %s" % (cell.S, hk.tolist(), want.tolist()))
     if perturb == "count":
         n_exp += 1
@@ -267,15 +343,19 @@ def judge(case, rt, reps=1, perturb=None, S=None):
     # --- python reference per peak
     drl = rt.indexing.calc_drlv2(ubi, gv1)
     exp_drl = np.array([sum(x * x for x in p["d"]) for p in pk], float) / 4096.0
-    if not np.array_equal(drl, exp_drl):
-        probs.append("indexing.calc_drlv2: %s, definition %s" % (drl.tolist(), exp_drl.tolist()))
+    if ubkind != "none":
+        fin = np.zeros(npk, bool)
+    # finite peaks: the exact error; peaks / matrices that are not numbers: an error that is not below the tolerance
+    if not np.array_equal(drl[fin], exp_drl[fin]) or (drl[~fin] < tol * tol).any():
+        probs.append("indexing.calc_drlv2: %s, definition %s (peaks that are not numbers: not below tol^2)" % (
+            drl.tolist(), np.where(fin, exp_drl, np.nan).tolist()))
     # --- score_and_refine
     u = ubi.copy()
     n2, s2 = c.score_and_refine(u, gv, tol)
     if n2 != n_exp:
         probs.append("score_and_refine: n=%d, definition %d" % (n2, n_exp))
     exp_mean = (case["ss"] / 4096.0 / case["n"]) if case["n"] else 0.0
-    if abs(s2 - exp_mean) > 1e-12 * max(1.0, exp_mean):
+    if off(s2, exp_mean, 1e-12 * max(1.0, exp_mean)):
         probs.append("score_and_refine: mean squared error %r, definition %r" % (s2, exp_mean))
     R = ([[x * reps for x in row] for row in R[0]], R[1])
     H = [[int(x) * reps for x in row] for row in case["H"]]
@@ -286,7 +366,7 @@ def judge(case, rt, reps=1, perturb=None, S=None):
     if perturb == "unchanged" and not isinstance(eu, str):
         u = ubi.copy()           # what a kernel that wrongly takes the "singular" branch hands back
     if eu == "singular":
-        if not np.array_equal(u, ubi):
+        if not same_bits(u, ubi):
             probs.append(singular_changed(None, "score_and_refine", H, u))
     elif eu != "degenerate":
         if not close(u, eu, reltol(H, R)):
@@ -304,14 +384,28 @@ def judge(case, rt, reps=1, perturb=None, S=None):
     nl = case["nl"] * reps
     if n3 != nl:
         probs.append("refine_assigned(label %d, others %d): npk=%d, definition %d" % (lsel, loth, n3, nl))
+    nlb = int(case.get("nlb", 0))
+    if nlb:
+        # the raw label pattern: non-finite peaks carry the label too; the count is the number of labelled peaks (the
+        # sums of the definition are not numbers then: nothing else is demanded)
+        lraw = np.tile(np.array([lsel if (p["lab"] or (p.get("bad") and labraw(case, i)))
+                                 else loth for i, p in enumerate(pk)], np.int32), reps)
+        if int((lraw == lsel).sum()) != (case["nl"] + nlb) * reps:
+            raise common.MachineryError("raw label pattern differs from the specification's count: %s" % (case,))
+        n3b, _ = c.refine_assigned(ubi.copy(), gv, lraw, lsel)
+        if n3b != (case["nl"] + nlb) * reps:
+            probs.append("refine_assigned(label %d given to %d non-finite peaks too): npk=%d, labelled peaks %d" % (
+                lsel, nlb * reps, n3b, (case["nl"] + nlb) * reps))
+    if ubkind != "none":
+        return probs         # every labelled peak has an hkl that is not a number: only the count is defined
     exp3 = (case["ssl"] / 4096.0 / case["nl"]) if case["nl"] else 0.0
-    if abs(s3 - exp3) > 1e-12 * max(1.0, exp3):
+    if off(s3, exp3, 1e-12 * max(1.0, exp3)):
         probs.append("refine_assigned: mean squared error %r, definition %r" % (s3, exp3))
     Rl = ([[x * reps for x in row] for row in Rl[0]], Rl[1])
     Hl = [[int(x) * reps for x in row] for row in case["Hl"]]
     eul = expected_ubi(Rl, Hl)
     if eul == "singular":
-        if not np.array_equal(u3, ubi):
+        if not same_bits(u3, ubi):
             probs.append(singular_changed(None, "refine_assigned", Hl, u3))
     elif eul != "degenerate" and not close(u3, eul, reltol(Hl, Rl)):
         probs.append("refine_assigned: fitted matrix %s differs from inverse(R H^-1) = %s" % (
@@ -379,13 +473,136 @@ def report(chk, probs, case, reps):
         chk.violation(p + tag, dict(case, reps_list=[reps]))
 
 
+
+# ---------------------------------------------------------------- re-entrancy (specification ScoreRefineCalls.tla)
+LABEL_THREAD = [(7, 3), (0, -1), (-1, 0), (2147483647, -2147483648), (-2, 5), (1, 0)]
+
+
+class Prepared(object):
+    """the arguments of one thread's calls (an emitted case of ScoreRefine.tla tiled to a long list, its own UBI, labels)
+    and the expectations of the specification's terminal state for them; check() makes ONE kernel call and compares"""
+
+    def __init__(self, case, reps, t, S=None):
+        self.case, self.reps, self.t = case, reps, t
+        if case.get("ub", "none") != "none" or case["n"] == 0:
+            raise common.MachineryError("re-entrancy needs cases with a selection")
+        cell = Cell(case, S)
+        pk = [dict(p) for p in case["peaks"]]
+        self.ubi = cell.ubi
+        self.tol = case["tol"] / 64.0
+        self.gv = np.ascontiguousarray(np.tile(build_gv(cell, pk), (reps, 1)))
+        self.lsel, loth = LABEL_THREAD[t % len(LABEL_THREAD)]
+        self.labels = np.tile(np.array([self.lsel if p["lab"] else loth for p in pk], np.int32), reps)
+        self.exp = {}
+        for name, key, nk, sk, Hk in (("score_and_refine", "sel", "n", "ss", "H"), ("refine_assigned", "lab", "nl", "ssl", "Hl")):
+            R = sum_outer(cell, pk, key)
+            R = ([[x * reps for x in row] for row in R[0]], R[1])
+            H = [[int(x) * reps for x in row] for row in case[Hk]]
+            self.exp[name] = (case[nk] * reps, (case[sk] / 4096.0 / case[nk]) if case[nk] else 0.0, expected_ubi(R, H),
+                              reltol(H, R))
+        self.exp["score"] = (case["n"] * reps, None, None, None)
+        self.alone = {}          # bits of the answers of a call made while no other thread was inside a kernel
+
+    def call(self, c, kernel):
+        u = self.ubi.copy()
+        if kernel == "score":
+            return (int(c.score(u, self.gv, self.tol)), None, u)
+        if kernel == "score_and_refine":
+            n, m = c.score_and_refine(u, self.gv, self.tol)
+        elif kernel == "refine_assigned":
+            n, m = c.refine_assigned(u, self.gv, self.labels, self.lsel)
+        else:
+            raise common.MachineryError("kernel %r of the plan is not bound" % (kernel,))
+        return (int(n), float(m), u)
+
+    def check(self, c, kernel, alone=False):
+        n, m, u = self.call(c, kernel)
+        ne, me, eu, rt_ = self.exp[kernel]
+        probs = []
+        if n != ne:
+            probs.append("%s: count %d, definition %d" % (kernel, n, ne))
+        if me is not None and off(m, me, 1e-12 * max(1.0, me)):
+            probs.append("%s: mean squared error %r, definition %r" % (kernel, m, me))
+        if eu is None or eu == "singular":
+            if not same_bits(u, self.ubi):
+                probs.append("%s: the matrix was changed: %s" % (kernel, u.tolist()))
+        elif eu != "degenerate" and not close(u, eu, rt_):
+            probs.append("%s: fitted matrix %s differs from inverse(R H^-1) = %s of its own peaks" % (
+                kernel, u.tolist(), [[float(x) for x in r] for r in eu]))
+        bits = (n, m, u.tobytes())
+        if alone:
+            self.alone[kernel] = bits
+        elif not probs and kernel in self.alone and bits != self.alone[kernel]:
+            probs.append("%s: the answer (%d, %r, %s) is not bit for bit the answer of the same call made alone" % (
+                kernel, n, m, u.tolist()))
+        return probs
+
+
+def threadsafe_kernels():
+    """kernels bound by this property whose f2py wrapper releases the GIL (`threadsafe` in src/_cImageD11.pyf of the tree
+    under test)"""
+    import re
+    txt = open(os.path.join(common.REPO, "src", "_cImageD11.pyf")).read()
+    out = []
+    for name in ("score", "score_and_refine", "refine_assigned"):
+        m = re.search(r"(?:subroutine|function)\s+%s\s*\((.*?)end (?:subroutine|function) %s\b" % (name, name), txt, re.S)
+        if m and re.search(r"^\s*threadsafe\s*$", m.group(1), re.M):
+            out.append(name)
+    return out
+
+
+def run_plans(c, preps, plans, rounds, pinned_rounds):
+    """executes every plan [thread -> kernel] x pin of ScoreRefineCalls.tla: thread t makes `rounds` calls of plan[t] on
+    its own arguments, the threads start each round together; returns [[plan index, [problems]], ...]"""
+    nt = len(preps)
+    for pr in preps:                       # alone first: the single-threaded answers, judged against the definition
+        for kern in ("score", "score_and_refine", "refine_assigned"):
+            p0 = pr.check(c, kern, alone=True)
+            if p0:
+                return [[-1, ["[single-threaded, thread case %d] %s" % (pr.t, q) for q in p0]]]
+    cpus = sorted(os.sched_getaffinity(0))
+    out = []
+    for ip, plan in enumerate(plans):
+        kern, pin = plan["plan"], int(plan["pin"])
+        if len(kern) != nt:
+            raise common.MachineryError("plan %s for %d threads" % (plan, nt))
+        nr = pinned_rounds if pin else rounds
+        bar = threading.Barrier(nt)
+        found = [[] for _ in range(nt)]
+        errs = []
+
+        def work(t):
+            try:
+                if pin:
+                    os.sched_setaffinity(0, {cpus[ip % len(cpus)]})      # this thread only (Linux: tid 0 = caller)
+                for r in range(nr):
+                    bar.wait(timeout=600)
+                    q = preps[t].check(c, kern[t])
+                    if q and not found[t]:
+                        found[t] = ["[thread %d of %d, kernels of the threads %s%s, round %d] %s" % (
+                            t + 1, nt, kern, ", one core" if pin else "", r, x) for x in q]
+            except Exception as ex:      # noqa
+                errs.append(repr(ex))
+                bar.abort()
+        th = [threading.Thread(target=work, args=(t,)) for t in range(nt)]
+        for x in th:
+            x.start()
+        for x in th:
+            x.join()
+        if errs:
+            raise common.MachineryError("re-entrancy plan %s: %s" % (plan, errs[:2]))
+        pr = [x for f in found for x in f]
+        out.append([ip, pr])
+    return out
+
+
 OMP_ENVS = [{"OMP_NUM_THREADS": "8", "OMP_THREAD_LIMIT": "3"},         # the team is smaller than omp_get_max_threads()
             {"OMP_NUM_THREADS": "16", "OMP_DYNAMIC": "true"},          # the runtime may hand out fewer threads than asked
             {"OMP_NUM_THREADS": "5", "OMP_SCHEDULE": "dynamic,1", "OMP_THREAD_LIMIT": "2"},
             {"OMP_NUM_THREADS": "1"}]
 
 
-def openmp_environments(chk, cases, rng, quick):
+def openmp_environments(chk, cases, rng, quick, ncases=()):
     """configurations: the kernels' results may not depend on how many threads the OpenMP runtime really delivers.  A seeded
     set of regular cases tiled to long lists (several 4096-peak chunks per delivered thread) is judged in child processes
     started under OpenMP environments in which the team size differs from omp_get_max_threads()"""
@@ -393,7 +610,10 @@ def openmp_environments(chk, cases, rng, quick):
     pool = [c for c in cases if len(c["peaks"]) and c["n"] > 0 and c["detH"] != 0]
     if not pool:
         return
-    pick = [pool[int(i)] for i in rng.choice(len(pool), size=min(len(pool), 4 if quick else 12), replace=False)]
+    pick = [pool[int(i)] for i in rng.choice(len(pool), size=min(len(pool), 3 if quick else 10), replace=False)]
+    npool = [c for c in ncases if c["n"] > 0 and c["detH"] != 0 and any(p.get("bad") for p in c["peaks"])]
+    if npool:                  # lists with peaks that are not numbers in every chunk
+        pick += [npool[int(i)] for i in rng.choice(len(npool), size=min(len(npool), 1 if quick else 2), replace=False)]
     items = []
     for c in pick:
         npk = len(c["peaks"])
@@ -424,6 +644,54 @@ def openmp_environments(chk, cases, rng, quick):
                          if isinstance(q, str) or q[0] != "finding"], case, reps)
         done[tag] = len(res["results"])
     chk.notes["openmp_environments"] = done
+
+
+
+def reentrancy(chk, cases, ncases, plans, scales, rng, quick):
+    """every plan of ScoreRefineCalls.tla (thread -> kernel, free / one core) on NT seeded regular cases tiled to >= 6e4
+    peaks (a call lasts long enough for the calls to overlap), one of them at a scale of the family and one with
+    non-finite peaks in its list; run in a child process (a kernel that is not re-entrant may also crash)"""
+    import subprocess
+    nt = len(plans[0]["plan"])
+    ok = lambda c: len(c["peaks"]) and c["n"] >= 3 and c["detH"] not in (0, 2147483647) and c["detHl"] not in (0, 2147483647)
+    pool = [c for c in cases if ok(c)]
+    # (the non-finite run labels the odd positions of <= 4 peaks: refine_assigned's equations are singular there: unchanged)
+    npool = [c for c in ncases if c["n"] >= 3 and c["detH"] not in (0, 2147483647) and any(p.get("bad") for p in c["peaks"])]
+    if len(pool) < nt or not npool:
+        raise common.MachineryError("re-entrancy: no regular cases to run")
+    pick = [pool[int(i)] for i in rng.choice(len(pool), size=nt - 1, replace=False)] + [npool[int(rng.integers(len(npool)))]]
+    jobs = []
+    for t, c in enumerate(pick):
+        reps = (60000 + 7000 * t) // len(c["peaks"]) + 1
+        jobs.append([c, reps, list(scales[int(rng.integers(len(scales)))]) if t == 1 else None])
+    d = common.scratch()
+    jpath, opath = os.path.join(d, "c06_threads_job.json"), os.path.join(d, "c06_threads_out.json")
+    plans = sorted(plans, key=lambda p: (p["pin"], p["plan"]))
+    json.dump({"threads": jobs, "plans": plans, "rounds": 3 if quick else 25, "pinned_rounds": 3 if quick else 40},
+              open(jpath, "w"))
+    child = os.path.join(os.path.dirname(os.path.dirname(os.path.abspath(__file__))), "c06_child.py")
+    t0 = time.time()
+    p = subprocess.run([common.PY, child, "threads", jpath, opath], stdout=subprocess.PIPE, stderr=subprocess.PIPE, text=True,
+                       timeout=3000)
+    res = json.load(open(opath))["results"] if os.path.exists(opath) and p.returncode == 0 else None
+    if res is None:
+        # single-threaded the same calls are made all through this check: a child that dies here died of the concurrency
+        chk.violation("kernels called from %d Python threads at once (own arguments each): the process ended with rc=%s: %s"
+                      % (nt, p.returncode, p.stderr[-600:]), {"threads": [[c, r, S] for c, r, S in jobs], "reentrancy": True})
+        return
+    nbad = 0
+    for ip, probs in res:
+        chk.case(("threads", ip))
+        chk.traces += 1
+        if probs and nbad < 5:
+            nbad += 1
+            for q in probs[:3]:
+                chk.violation("[calls from %d Python threads at once, each with its own ubi / g-vectors / labels] %s" % (nt, q),
+                              {"threads": [[c, r, S] for c, r, S in jobs], "reentrancy": True,
+                               "plan": plans[ip] if ip >= 0 else None})
+    chk.notes["reentrancy"] = {"plans": len(plans), "threads": nt, "seconds": round(time.time() - t0, 1),
+                               "gil_released_by": threadsafe_kernels(),
+                               "peaks": [len(c["peaks"]) * r for c, r, S in jobs]}
 
 
 def load_scales(tier):
@@ -473,13 +741,32 @@ def run(tier, replay=None):
                 "1/64 off, exactly on the tolerance boundary, half-integer, coplanar, |h|~100), two label patterns; scale run "
                 "every S of the scale family (cells 1 A .. 4096 A, long-axis / plate cells, |g| 2^+-33, 2^+-100) and a pool of 7; "
                 "each terminal state carries the integer n, sum|d|^2, R, H, X, det H; a seeded share of the main run is "
-                "replayed at a scale of the family too; non-trivial = at least one selected peak; distinct = distinct case")
+                "replayed at a scale of the family too; non-finite run: every list of length <= 4 over a pool of 4 and the non-finite "
+                "peak kinds (one component NaN / +inf / -inf; thorough also all NaN, +inf and -inf), and UBI with one element NaN / "
+                "+-inf: expectations are those of the finite sub-list (law SubList); re-entrancy: every plan thread -> kernel of "
+                "ScoreRefineCalls.tla (4 threads, free / one core) on seeded regular cases tiled to >= 6e4 peaks, each call judged "
+                "against the expectation of its own list; non-trivial = at least one selected peak; distinct = distinct case")
     chk.assumptions = ["binary64 arithmetic on dyadic rationals below 2^53 is exact (checked: UBI.g == h + d/64 bit for bit, at every scale)",
                        "accuracy of the kernels on non-dyadic data is not decided by the specification",
                        "zero-length peak lists cannot be passed through the f2py wrappers",
+                       "a peak or matrix that is not a number is within no tolerance (the definition's `error < tol` is false); "
+                       "refine_assigned asked for a label carried by non-finite peaks: only its count is defined",
+                       "overlap of the concurrent calls is sought (long lists, common start of every round), not forced: "
+                       "the threads' schedule inside the C code cannot be dictated from Python",
                        "scales are powers of two between 2^-300 and 2^300 (no underflow / overflow of the 3x3 determinants)"]
     if replay:
         case = json.load(open(replay))["case"]
+        if case.get("reentrancy"):
+            preps = [Prepared(cs, reps, t, S) for t, (cs, reps, S) in enumerate(case["threads"])]
+            plan = case.get("plan") or {"plan": ["score_and_refine", "refine_assigned"] * (len(preps) // 2) + ["score"] * (len(preps) % 2), "pin": 0}
+            for ip, probs in run_plans(rt.c, preps, [plan], 50, 50):
+                for q in probs[:3]:
+                    chk.violation("[calls from %d Python threads at once] %s" % (len(preps), q), case)
+                chk.case(("threads", json.dumps(plan)))
+                chk.traces += 1
+            chk.sample({"replayed": replay})
+            chk.exhaustive = False
+            return chk.finish()
         jc = scaled_case(case, case["hscale"]) if case.get("hscale") else case
         for reps in case.get("reps_list", [1]):
             report(chk, judge(jc, rt, reps), case, reps)
@@ -490,14 +777,22 @@ def run(tier, replay=None):
         return chk.finish()
 
     quick = tier == "quick"
-    cfgs = ["ScoreRefine_q.cfg" if quick else "ScoreRefine_t.cfg", "ScoreRefine_sq.cfg" if quick else "ScoreRefine_st.cfg"]
+    x = "q" if quick else "t"
+    cfgs = ["ScoreRefine_%s.cfg" % x, "ScoreRefine_s%s.cfg" % x, "ScoreRefine_n%s.cfg" % x, "ScoreRefineCalls_%s.cfg" % x]
     common.scratch()
+    nw = int(os.environ.get("C06_TLC_WORKERS", "8"))
     from concurrent.futures import ThreadPoolExecutor
-    with ThreadPoolExecutor(2) as ex:          # the two runs side by side, 8 workers each
-        rr = list(ex.map(lambda c: common.run_tlc("ScoreRefine", os.path.join(common.SPECS, c), workers=8, timeout=3000,
-                                                  coverage=False), cfgs))
+    with ThreadPoolExecutor(4) as ex:          # the runs side by side
+        rr = list(ex.map(lambda c: common.run_tlc("ScoreRefineCalls" if "Calls" in c else "ScoreRefine", os.path.join(common.SPECS, c),
+                                                  workers=2 if "Calls" in c else (max(2, nw // 2) if "_n" in c else nw),
+                                                  heap="1g" if "Calls" in c else ("3g" if "_n" in c else "6g"),
+                                                  timeout=3000, coverage=False), cfgs))
     cases = tlc_cases(chk, cfgs[0], "ScoreRefine " + tier, rr[0])
     scases = tlc_cases(chk, cfgs[1], "ScoreRefine scales " + tier, rr[1])
+    ncases = tlc_cases(chk, cfgs[2], "ScoreRefine non-finite " + tier, rr[2])
+    plans = tlc_cases(chk, cfgs[3], "ScoreRefineCalls " + tier, rr[3])
+    if len(plans) < 2 or not any(p["pin"] == 0 for p in plans):
+        raise common.MachineryError("ScoreRefineCalls emitted no plans")
     scales = load_scales(tier)
     seen_scales = set(tuple(c["S"]) for c in scases)
     if seen_scales != set(scales):
@@ -512,30 +807,41 @@ def run(tier, replay=None):
         chk.case(key, nontrivial=case["n"] > 0)
         chk.traces += 1
 
-    for idx, case in enumerate(cases):
+    nonfin = {"regular fit, non-finite peaks in the list": 0, "singular, non-finite peaks in the list": 0,
+              "UBI element not a number": 0, "kinds": {}}
+    for fam, idx, case in [("", i, c) for i, c in enumerate(cases)] + [("nonfinite", i, c) for i, c in enumerate(ncases)]:
         npk = len(case["peaks"])
         reps_list = [1]
         # tiling across the OpenMP chunk size for a seeded subset
-        if npk and rng.random() < (0.02 if quick else 0.05):
+        if npk and rng.random() < (0.02 if quick else 0.05) * (0.5 if fam else 1):
             reps_list += [4095 // npk, 4096 // npk + 1, (2 * 4096) // npk + 1]
             if tier == "thorough" and rng.random() < 0.1:
                 reps_list.append(100000 // npk)
         for reps in reps_list:
-            one(case, reps, (idx, reps))
+            one(case, reps, (fam, idx, reps))
         # the same case at a scale of the family (expectations are scale free: specification's law Covariant)
         if npk and rng.random() < (0.1 if quick else 0.05):
             sc = scales[int(rng.integers(len(scales)))]
-            one(dict(case, S=list(sc)), 1, (idx, 1, sc))
+            one(dict(case, S=list(sc)), 1, (fam, idx, 1, sc))
         if len(reps_list) > 1:
             # hkl up to ~1e3 and up to 1e5 peaks: sums of h_i h_j beyond 2^31 (python-integer re-evaluation of the definitions)
             big = scaled_case(case, 10)
             for reps in (1, 20000 // npk, 100000 // npk if tier == "thorough" else 30000 // npk):
-                one(big, reps, (idx, reps, "h*10"), dict(case, hscale=10))
+                one(big, reps, (fam, idx, reps, "h*10"), dict(case, hscale=10))
             # ... and long lists / large hkl at a scale of the family
             sc = scales[int(rng.integers(len(scales)))]
-            one(dict(case, S=list(sc)), reps_list[2], (idx, reps_list[2], sc))
-            one(dict(big, S=list(sc)), 20000 // npk, (idx, 20000 // npk, "h*10", sc), dict(case, hscale=10, S=list(sc)))
-        if case["detH"] == 0 and case["n"] > 0:
+            one(dict(case, S=list(sc)), reps_list[2], (fam, idx, reps_list[2], sc))
+            one(dict(big, S=list(sc)), 20000 // npk, (fam, idx, 20000 // npk, "h*10", sc), dict(case, hscale=10, S=list(sc)))
+        if fam:
+            kinds = sorted(set(p["bad"] for p in case["peaks"] if p.get("bad")))
+            if case.get("ub", "none") != "none":
+                nonfin["UBI element not a number"] += 1
+                kinds = ["ubi " + case["ub"]]
+            elif kinds and case["n"] > 0:
+                nonfin["singular, non-finite peaks in the list" if case["detH"] == 0 else "regular fit, non-finite peaks in the list"] += 1
+            for kd in kinds:
+                nonfin["kinds"][kd] = nonfin["kinds"].get(kd, 0) + 1
+        elif case["detH"] == 0 and case["n"] > 0:
             nsing += 1
         elif case["n"] > 0:
             nref += 1
@@ -552,7 +858,10 @@ def run(tier, replay=None):
             st[0 if case["detH"] == 0 else 1] += 1
         if idx == 4000:
             chk.sample(case)
-    openmp_environments(chk, cases, rng, quick)
+    openmp_environments(chk, cases, rng, quick, ncases)
+    if len(chk.violations) <= 20:
+        reentrancy(chk, cases, ncases, plans, scales, rng, quick)
+    chk.notes["non_finite_cases"] = nonfin
     chk.notes["singular_nonempty_cases"] = nsing
     chk.notes["refined_cases"] = nref
     chk.notes["per_scale_singular_regular"] = per_scale
@@ -560,10 +869,17 @@ def run(tier, replay=None):
     if not chk.violations:
         if nsing < 10 or nref < 10:
             raise common.MachineryError("vacuity: %d singular / %d regular cases" % (nsing, nref))
+        if min(v for k, v in nonfin.items() if k != "kinds") < 10 or len(nonfin["kinds"]) < 6 or min(nonfin["kinds"].values()) < 10:
+            raise common.MachineryError("vacuity: non-finite families %s" % (nonfin,))
         thin = [k for k, v in per_scale.items() if v[0] < 10 or v[1] < 10]
         if thin or len(per_scale) != len(scales):
             raise common.MachineryError("vacuity: scales with < 10 singular / regular cases: %s" % thin)
-    selftest(rt, cases + scases)
+    selftest(rt, cases + scases + ncases)
+    if not quick:        # the law of ScoreRefineCalls.tla bites: one accumulator shared by all calls violates Isolation
+        neg = common.run_tlc("ScoreRefineCalls", os.path.join(common.SPECS, "ScoreRefineCalls_neg.cfg"), workers=2, timeout=600,
+                             coverage=False)
+        if "Isolation" not in (neg.violated or []):
+            raise common.MachineryError("selftest: shared accumulators do not violate Isolation in ScoreRefineCalls.tla")
     return chk.finish()
 
 
@@ -571,7 +887,19 @@ def selftest(rt=None, cases=None):
     rt = rt or Routes()
     if not cases:
         return
-    c = next(x for x in cases if x["n"] >= 3 and x["detH"] not in (0, 2147483647) and any(any(p["d"]) for p in x["peaks"] if p["sel"]))
+    reg = lambda x: x["n"] >= 3 and x["detH"] not in (0, 2147483647) and any(any(p["d"]) for p in x["peaks"] if p["sel"])
+    c = next(x for x in cases if reg(x))
+    if not off(float("nan"), 0.0, 1.0) or close(np.full((3, 3), np.nan), [[1.0] * 3] * 3) or same_bits([np.nan], [1.0]):
+        raise common.MachineryError("selftest: a value that is not a number passes a comparison")
+    cb = next((x for x in cases if reg(x) and any(p.get("bad") for p in x["peaks"])), None)
+    if cb is not None and not [p for p in judge(cb, rt) if not isinstance(p, tuple)]:
+        for kind in ("count", "matrix", "unchanged"):
+            if not judge(cb, rt, perturb=kind):
+                raise common.MachineryError("selftest: perturbed %s accepted on a list with non-finite peaks" % kind)
+        # a kernel that lets the non-finite peaks in: its answers are those of the list with these peaks made finite
+        wrong = dict(cb, peaks=[dict(p, bad="") for p in cb["peaks"]])
+        if not judge(wrong, rt):
+            raise common.MachineryError("selftest: non-finite peaks taken for finite ones accepted")
     for S in (None, [7, 7, 7], [-100, -100, -100], [0, 6, 10]):
         if [p for p in judge(c, rt, S=S) if not isinstance(p, tuple)]:
             return      # the unchanged case already fails: nothing to self-test against
